@@ -20,6 +20,17 @@ Fixpoint dedup (l : list (Z * Z)) : list (Z * Z) :=
       end
   end.
 
+Definition rec_head (recs : list (Z * list N)) : Z * list N :=
+  match recs with r :: _ => r | [] => (0, []) end.
+
+Lemma aget_reinit_ds (m : amap (list (Z * list N))) role :
+  aget (0, []) role (map (fun '(r, recs) => (r, match recs with rec :: _ => rec | [] => (0, []) end)) m)
+  = rec_head (aget [] role m).
+Proof.
+  induction m as [|[r recs] m IH]; simpl; [reflexivity|].
+  destruct (N.eqb role r); [destruct recs; reflexivity|exact IH].
+Qed.
+
 Section Gov.
 Variable cfg : config.
 
@@ -30,7 +41,10 @@ Record CohTx (st : state) : Prop := mkCT {
   ct_policy : p_cache (A st) = p_store (A st);
   ct_gpb : s_gpb (A st) = dedup (c_gpb (A st));
   ct_gpv : forall k v, aget None k (c_gpv (A st)) = Some v -> aget 0 k (s_gpv (A st)) = v;
-  ct_dirty : votes_changed (A st) = false -> compute_committee cfg st = ne_committee (A st)
+  ct_dirty : votes_changed (A st) = false -> compute_committee cfg st = ne_committee (A st);
+  (* Designate: the cached role data is the newest stored record; Management: the cached contracts are the stored ones *)
+  ct_ds : forall role, aget (0, []) role (ds_cache (X st)) = rec_head (aget [] role (ds_store (X st)));
+  ct_mg : forall h, aget mc0 h (mg_cache (X st)) = aget mc0 h (mg_store (X st))
 }.
 
 (* coherence at a block boundary *)
@@ -46,9 +60,14 @@ Definition obs (st : state) :=
   (committee_sorted st, next_validators cfg st, compute_next_validators cfg st,
    c_blocked (A st), p_cache (A st), c_regprice (A st)).
 
+(* ... and, per role / height / contract: the designated nodes, the contract state, the whitelisted fee *)
+Definition obsX (st : state) (role : N) (index : Z) (a : N) :=
+  (designated st role index, contract_of st a, whitelisted_fee st a).
+
 (* the storage of the modelled contracts *)
 Definition sto (st : state) :=
-  (L st, height (A st), committee (A st), s_gpv (A st), s_gpb (A st), s_regprice (A st), s_blocked (A st), p_store (A st)).
+  (L st, height (A st), committee (A st), s_gpv (A st), s_gpb (A st), s_regprice (A st), s_blocked (A st), p_store (A st),
+   ds_store (X st), mg_store (X st), mg_ids (X st), mg_next (X st)).
 
 Lemma compute_committee_ext st st' :
   l_cands (L st') = l_cands (L st) -> c_blocked (A st') = c_blocked (A st) ->
@@ -64,13 +83,26 @@ Proof. unfold reinit, sto. destruct ((height (A st) + 1) mod csize cfg =? 0); re
 Lemma reinit_compute st : c_blocked (A st) = s_blocked (A st) ->
   compute_committee cfg (mkSt (L st) (mkA (height (A st)) (committee (A st)) (committee (A st)) true (s_gpv (A st)) []
      (s_gpb (A st)) (s_gpb (A st)) (s_regprice (A st)) (s_regprice (A st)) (s_blocked (A st)) (s_blocked (A st))
-     (p_store (A st)) (p_store (A st)))) = compute_committee cfg st.
+     (p_store (A st)) (p_store (A st))) (reinit_ext (X st))) = compute_committee cfg st.
 Proof. intros H. apply compute_committee_ext; simpl; auto. Qed.
 
 (* a coherent node answers like a restarted one, and restarting keeps it coherent *)
+Lemma reinit_X st : X (reinit cfg st) = reinit_ext (X st).
+Proof. unfold reinit. destruct (_ =? 0); reflexivity. Qed.
+
+Lemma reinit_pcache st : p_cache (A (reinit cfg st)) = p_store (A st).
+Proof. unfold reinit. destruct (_ =? 0); reflexivity. Qed.
+
+Theorem coherent_obsX st role index a : Coh st -> obsX (reinit cfg st) role index a = obsX st role index a.
+Proof.
+  intros [[c1 c2 c3 c4 c5 c6 c7 c8] cm ce]. unfold obsX, designated, ds_latest, contract_of, whitelisted_fee.
+  rewrite reinit_X, reinit_pcache. unfold reinit_ext; simpl.
+  rewrite aget_reinit_ds, <- (c7 role), (c8 (caddr a)), c3. reflexivity.
+Qed.
+
 Theorem coherent_obs st : Coh st -> obs (reinit cfg st) = obs st.
 Proof.
-  intros [[c1 c2 c3 c4 c5 c6] cm ce]. unfold obs, reinit.
+  intros [[c1 c2 c3 c4 c5 c6 c7 c8] cm ce]. unfold obs, reinit.
   destruct ((height (A st) + 1) mod csize cfg =? 0) eqn:E; simpl.
   - unfold compute_next_validators, committee_sorted, next_validators; simpl.
     rewrite reinit_compute by exact c2. rewrite (ce ltac:(lia)), c1, c2, c3. reflexivity.
